@@ -109,6 +109,18 @@ Proof.
 Qed.
 Print Assumptions C08_smoothing_window.
 
+(* on the current source (generated flag true: F49 repair present) no exception is left: the DC window of EVERY block
+   column of a cropped region is the full decode's *)
+Theorem C08_smoothing_window_full :
+  forall wib first last b,
+  0 <= first -> first <= b <= last -> last < wib ->
+  smooth_cols (lo_of gen_smooth_left_real first) (lbc_of gen_smooth_lbc_is_width wib last) b = full_cols wib b.
+Proof.
+  exact (fun wib first last b H0 Hb Hl =>
+           smooth_window_same gen_smooth_left_real wib first last b H0 Hb Hl (or_intror (or_intror (eq_refl true)))).
+Qed.
+Print Assumptions C08_smoothing_window_full.
+
 (* the clause without the exception is false for the code without that repair (hazard 7, replayed by the check),
    and a crop-dependent last_block_column would break the right edge as well *)
 Theorem C08_refuted_smoothing_left_edge :
